@@ -1690,6 +1690,8 @@ class HDKey(Key):
         bkey = change_base(wif, 58, 256)
         if len(bkey) != 82:
             raise BKeyError("Invalid BIP32 HDkey WIF. Length must be 82 characters")
+        if bkey[-4:] != double_sha256(bkey[:-4])[:4]:
+            raise BKeyError("Invalid BIP32 HDkey WIF. Checksum incorrect")
 
         if ord(bkey[45:46]):
             is_private = False
@@ -1803,6 +1805,8 @@ class HDKey(Key):
                 network = Network(check_network_and_key(import_key, network, kf["networks"]))
                 if kf['format'] in ['hdkey_private', 'hdkey_public']:
                     bkey = change_base(import_key, 58, 256)
+                    if len(bkey) != 82 or bkey[-4:] != double_sha256(bkey[:-4])[:4]:
+                        raise BKeyError("Invalid BIP32 HDkey WIF. Length must be 82 characters and checksum correct")
                     # Derive key, chain, depth, child_index and fingerprint part from extended key WIF
                     if ord(bkey[45:46]):
                         is_private = False
